@@ -24,6 +24,13 @@ if t.TYPE_CHECKING:
 
 PYTHON_VERSION_MARKERS = {"python_version", "python_full_version"}
 MARKERS_ALLOWING_SET = {"extras", "dependency_groups"}
+# PEP 508: only these are compared as versions, everything else as plain strings
+MARKERS_REQUIRING_VERSION = {
+    "implementation_version",
+    "platform_release",
+    "python_full_version",
+    "python_version",
+}
 Operator = t.Callable[[str, t.Union[str, t.Set[str]]], bool]
 _operators: dict[str, Operator] = {
     "in": lambda lhs, rhs: lhs in rhs,
@@ -183,21 +190,23 @@ class MarkerExpression(SingleMarker):
 
         target = environment[self.name]
         if self.reversed:
+            # self.op was reflected when the marker was built: use the operator as written
             lhs, rhs = self.value, target
-            oper = _operators.get(get_reflect_op(self.op))
+            op = get_reflect_op(self.op)
         else:
             lhs, rhs = target, self.value
             assert isinstance(lhs, str)
-            oper = _operators.get(self.op)
+            op = self.op
+        oper = _operators.get(op)
         if self.name in MARKERS_ALLOWING_SET:
             lhs = normalize_name(lhs)
             if isinstance(rhs, set):
                 rhs = {normalize_name(v) for v in rhs}
             else:
                 rhs = normalize_name(rhs)
-        if isinstance(rhs, str):
+        if isinstance(rhs, str) and self.name in MARKERS_REQUIRING_VERSION:
             try:
-                spec = Specifier(f"{self.op}{rhs}")
+                spec = Specifier(f"{op}{rhs}")
             except InvalidSpecifier:
                 pass
             else:
